@@ -120,6 +120,15 @@ type VC struct {
 	heap0       Heap
 	topArgs     []Val
 	digCache    map[string][]string
+	epochParent map[int]epochInfo
+	frameObj    map[string][]string // object-restricted frame of the function under verification: map -> allowed object terms
+	frameWhole  map[string]bool
+	frameN      int
+	curFrame    *Frame
+	countNames  map[string]bool // callee names whose executions are counted (mentioned in calls(...) of the contract)
+	prop        string          // property being checked ("" = all clauses are used)
+	used        map[string]bool // contracts applied modularly
+	usedAssumes map[string]bool // unverified postconditions relied upon
 }
 
 func NewVC(e *Engine, top *ssa.Function) *VC {
@@ -338,9 +347,25 @@ func (vc *VC) mapSort(name, sort string) {
 
 func (vc *VC) hget(h Heap, name string) string {
 	if v, ok := h.m[name]; ok {
+		if strings.HasPrefix(v, "?fresh:") {
+			// the map was havocked before its sort was known: materialise the fresh constant now
+			srt, ok := vc.mapSorts[name]
+			if !ok {
+				panic("heap map without sort: " + name)
+			}
+			n := name + "!h" + v[7:]
+			if _, ok := vc.defIdx[n]; !ok {
+				d := &Def{Name: n, Sort: srt}
+				vc.defs = append(vc.defs, d)
+				vc.defIdx[n] = d
+			}
+			h.m[name] = n
+			return n
+		}
 		return v
 	}
-	base := fmt.Sprintf("%s@%d", name, h.epoch)
+	ep := vc.resolveEpoch(name, h.epoch)
+	base := fmt.Sprintf("%s@%d", name, ep)
 	if _, ok := vc.defIdx[base]; !ok {
 		srt, ok := vc.mapSorts[name]
 		if !ok {
@@ -351,6 +376,9 @@ func (vc *VC) hget(h Heap, name string) string {
 		vc.defIdx[base] = d
 		if name == "$alloc" {
 			d.Rng = sApp("<", "0", base)
+		}
+		if strings.HasPrefix(name, "$calls_") {
+			d.Rng = sEq(base, "0")
 		}
 	}
 	return base
@@ -375,20 +403,75 @@ func (vc *VC) newRef(h *Heap, hint string) string {
 	return r
 }
 
-func (vc *VC) havocAll(h *Heap, guardWhy string) {
-	old := vc.alloc(*h)
-	vc.epochs++
-	ghosts := map[string]string{}
-	for k, v := range h.m {
-		if strings.HasPrefix(k, "G_") && strings.HasSuffix(k, "$keep") {
-			ghosts[k] = v
+type epochInfo struct {
+	parent   int
+	preserve []string
+	merged   []int // epoch created by merging heaps of these epochs
+}
+
+// the epoch whose initial constant denotes map 'name' in a heap of epoch ep (for maps never written so far)
+func (vc *VC) resolveEpoch(name string, ep int) int {
+	for {
+		info, ok := vc.epochParent[ep]
+		if !ok {
+			return ep
+		}
+		if info.merged != nil {
+			first := vc.resolveEpoch(name, info.merged[0])
+			for _, m := range info.merged[1:] {
+				if vc.resolveEpoch(name, m) != first {
+					return ep
+				}
+			}
+			ep = first
+			continue
+		}
+		if !matchPreserve(info.preserve, name) {
+			return ep
+		}
+		ep = info.parent
+	}
+}
+
+// preserve patterns are heap-map name prefixes; ghost maps are never modified by unknown code
+func matchPreserve(pats []string, name string) bool {
+	if name == "$alloc" {
+		return false
+	}
+	if strings.HasPrefix(name, "G_") || strings.HasPrefix(name, "$calls_") {
+		return true
+	}
+	for _, p := range pats {
+		if p == "*" || strings.HasPrefix(name, p) {
+			return true
+		}
+		if strings.HasPrefix(p, "M?_") && len(name) > 3 && (strings.HasPrefix(name, "MH_") || strings.HasPrefix(name, "MV_")) && strings.HasPrefix(name[3:], p[3:]) {
+			return true
 		}
 	}
-	h.m = map[string]string{}
-	h.epoch = vc.epochs
-	for k, v := range ghosts {
-		h.m[k] = v
+	return false
+}
+
+func (vc *VC) havocAll(h *Heap, guardWhy string) {
+	vc.havocExcept(h, nil)
+}
+
+// havocExcept forgets everything about the heap except maps matching the preserve patterns
+func (vc *VC) havocExcept(h *Heap, preserve []string) {
+	old := vc.alloc(*h)
+	vc.epochs++
+	keep := map[string]string{}
+	for k, v := range h.m {
+		if matchPreserve(preserve, k) {
+			keep[k] = v
+		}
 	}
+	if vc.epochParent == nil {
+		vc.epochParent = map[int]epochInfo{}
+	}
+	vc.epochParent[vc.epochs] = epochInfo{parent: h.epoch, preserve: preserve}
+	h.m = keep
+	h.epoch = vc.epochs
 	na := vc.alloc(*h)
 	vc.setRng(na, sApp("<=", old, na))
 }
@@ -396,6 +479,8 @@ func (vc *VC) havocAll(h *Heap, guardWhy string) {
 func (vc *VC) havocMap(h *Heap, name string) {
 	srt, ok := vc.mapSorts[name]
 	if !ok {
+		vc.n++
+		h.m[name] = fmt.Sprintf("?fresh:%d", vc.n)
 		return
 	}
 	if name == "$alloc" {
@@ -427,6 +512,14 @@ func (vc *VC) mergeHeaps(conds []string, hs []Heap) Heap {
 	if !sameEpoch {
 		vc.epochs++
 		out.epoch = vc.epochs
+		var src []int
+		for _, h := range hs {
+			src = append(src, h.epoch)
+		}
+		if vc.epochParent == nil {
+			vc.epochParent = map[int]epochInfo{}
+		}
+		vc.epochParent[vc.epochs] = epochInfo{merged: src}
 		for k := range vc.mapSorts {
 			keys[k] = true
 		}
@@ -437,6 +530,23 @@ func (vc *VC) mergeHeaps(conds []string, hs []Heap) Heap {
 	}
 	sort.Strings(ks)
 	for _, k := range ks {
+		if _, known := vc.mapSorts[k]; !known {
+			// never touched so far (only havocked): keep the marker if identical everywhere, else a new one
+			raw := hs[0].m[k]
+			same := true
+			for _, h := range hs {
+				if h.m[k] != raw {
+					same = false
+				}
+			}
+			if same && raw != "" {
+				out.m[k] = raw
+			} else {
+				vc.n++
+				out.m[k] = fmt.Sprintf("?fresh:%d", vc.n)
+			}
+			continue
+		}
 		vals := make([]string, len(hs))
 		same := true
 		for i, h := range hs {
@@ -477,6 +587,9 @@ func (vc *VC) loadLoc(h Heap, l *Loc) string {
 }
 
 func (vc *VC) storeLoc(h *Heap, l *Loc, v string) {
+	if len(vc.frameObj) > 0 && (l.Kind == locField || l.Kind == locElem || l.Kind == locCell) && vc.curFrame != nil {
+		vc.frameCheck(vc.curFrame, l.Map, l.Obj, token.NoPos)
+	}
 	switch l.Kind {
 	case locField, locCell:
 		vc.hset(h, l.Map, sApp("store", vc.hget(*h, l.Map), l.Obj, v))
